@@ -1,11 +1,273 @@
-import NasdaqModel.Model.SyncFacade
+import NasdaqModel.Lemmas.SyncFacadeProgress
+import NasdaqModel.Lemmas.SyncFacadeMeasure
+import NasdaqModel.Witness.C20
 /-
-C20 — synchronous facade.  (theorems follow)
+C20 — the synchronous facade always returns or raises; its thread always ends.
+
+Model: `Model/SyncFacade.lean` (any number of caller threads, the executor's loop thread, peer events; one transition =
+one atomic statement of one thread; every interleaving allowed, nothing assumed fair).  All theorems quantify over ALL
+configurations (any number of threads, any programs, any peer script) and ALL interleavings; proofs are invariants by
+induction over the transition sequence and a strictly decreasing measure.
+
+FULL STATEMENT (what the property asks; it is FALSE of the unchanged code, see `C20_full_statement_false`):
+    ∀ cfg ls s, exec (init cfg) ls = some s → (∀ l, step s l = none) →
+      ∀ i c, s.callers[i]? = some c → c.finished = true ∨ legitWait s c = true
+What is proved instead: the same conclusion for every run that never takes a step in the explicit excluded region
+`okStep` (`C20_no_hang_partial`): (a) no coroutine is handed to the loop after `AsyncSession.close` has begun,
+(b) no second `receive_msg` goes to wait while one is waiting.  Each excluded region contains a real defect of the
+library, proved on a concrete interleaving in `Witness/C20.lean` and replayed on the implementation by the harness.
+Everything else (safety invariants, run length bound, state error after close) is proved at full strength.
 -/
 namespace NasdaqModel.Props.C20
 open NasdaqModel.SyncFacade
 
+/-! ### safety invariants: every reachable state, any number of caller threads, any interleaving -/
+
+/-- `closed_event` set ⇒ `loop.stop` has been requested -/
+theorem C20_event_implies_stop {cfg : Cfg} {s : St} (h : Reachable cfg s) :
+    s.closedEvent = true → s.stopReq = true := by
+  have hg := (inv1_reachable h).1
+  revert hg; simp only [ginv]; cases s.closePc <;> simp_all
+
+/-- the executor thread exits only after the close callback has completed: stop requested, event set, lock released -/
+theorem C20_thread_exit_implies_closed {cfg : Cfg} {s : St} (h : Reachable cfg s) :
+    s.loopAlive = false →
+      s.closePc = .done ∧ s.stopReq = true ∧ s.closedEvent = true ∧ s.sessClosed = true ∧ s.lock ≠ some .loop := by
+  have hg := (inv1_reachable h).1
+  revert hg; simp only [ginv, St.sessClosed]; cases s.closePc <;> simp_all [ClosePc.sessClosed]
+
+/-- the thread, once exited, stays exited; a close procedure, once started, is never forgotten -/
+theorem C20_thread_never_restarts {s s' : St} {l : Label} (h : step s l = some s') :
+    (s.loopAlive = false → s'.loopAlive = false) ∧ (s.closePc ≠ .idle → s'.closePc ≠ .idle) :=
+  step_mono h
+
+/-- lock discipline: a caller thread owns `close_lock` exactly while it is between `with self.close_lock:` and the end
+of that block; the loop thread exactly while it is inside the block of `on_close_coro`; hence mutual exclusion -/
+theorem C20_lock_discipline {cfg : Cfg} {s : St} (h : Reachable cfg s) :
+    (∀ (i : Nat) (c : Caller), s.callers[i]? = some c → (critPc c = true ↔ s.lock = some (.caller i))) ∧
+    (s.lock = some .loop ↔ (s.closePc = .haveLock ∨ s.closePc = .stopCalled ∨ s.closePc = .eventSet)) := by
+  have hI := inv1_reachable h
+  refine ⟨fun i c hc => (hI.2 i c hc).2.2, ?_⟩
+  have hg := hI.1
+  revert hg; simp only [ginv]; cases s.closePc <;> simp_all
+
+theorem C20_mutual_exclusion {cfg : Cfg} {s : St} (h : Reachable cfg s) {i j : Nat} {ci cj : Caller}
+    (hi : s.callers[i]? = some ci) (hj : s.callers[j]? = some cj) (ci_in : critPc ci = true) :
+    (critPc cj = true → i = j) ∧ s.closePc ≠ .haveLock ∧ s.closePc ≠ .stopCalled ∧ s.closePc ≠ .eventSet := by
+  obtain ⟨hc, hl⟩ := C20_lock_discipline h
+  have li := (hc i ci hi).mp ci_in
+  refine ⟨fun cj_in => ?_, ?_⟩
+  · have lj := (hc j cj hj).mp cj_in
+    rw [li] at lj; simpa using lj
+  · have : s.lock ≠ some .loop := by rw [li]; simp
+    have := mt hl.mpr this
+    simp only [not_or] at this
+    exact this
+
+/-- when `close()` / `logout()` has returned, the executor thread has exited and the session reports closed -/
+theorem C20_close_returns_thread_exited {cfg : Cfg} {s : St} (h : Reachable cfg s) {i : Nat} {c : Caller}
+    (hc : s.callers[i]? = some c) {op : Op} (hop : op.isClose = true) (hret : (op, Outcome.ok) ∈ c.hist) :
+    s.loopAlive = false ∧ s.sessClosed = true := by
+  have hI := inv12_reachable h
+  have hcl : closedIn c.hist = true := by
+    unfold closedIn
+    exact List.any_eq_true.mpr ⟨(op, .ok), hret, by simp [hop]⟩
+  have ha := (hI.2 i c hc).1 hcl
+  exact ⟨ha, (C20_thread_exit_implies_closed h ha).2.2.2.1⟩
+
+/-- reading of `goodHist`: a call finished after a returned close()/logout() of the same thread ended as
+`expectedAfterClose` says — StateError for receive / send / execute -/
+theorem goodHist_spec {pre post : List (Op × Outcome)} {op : Op} {o : Outcome}
+    (h : goodHist (pre ++ (op, o) :: post) = true) (hc : closedIn post = true) : o = expectedAfterClose op := by
+  induction pre with
+  | nil => simp [goodHist, hc] at h; exact h.2
+  | cons p pre ih =>
+    obtain ⟨op', o'⟩ := p
+    simp only [List.cons_append, goodHist, Bool.and_eq_true] at h
+    exact ih h.1
+
+/-- after `close()` / `logout()` returned, every later call of that thread fails with the state error
+(receive, send_msg/send_debug, execute), close/logout return at once; `send_unseq_data` returns normally —
+that deviation from the property is recorded as `Witness.C20_witness_unseq_after_close` -/
+theorem C20_after_close_state_error {cfg : Cfg} {s : St} (h : Reachable cfg s) {i : Nat} {c : Caller}
+    (hc : s.callers[i]? = some c) {pre post : List (Op × Outcome)} {op : Op} {o : Outcome}
+    (hh : c.hist = pre ++ (op, o) :: post) (hcl : closedIn post = true) : o = expectedAfterClose op := by
+  have hI := inv12_reachable h
+  have g := (hI.2 i c hc).2.2.2.2.2
+  rw [hh] at g
+  exact goodHist_spec g hcl
+
+/-- … and of ANY thread: once the executor thread has exited, a receive / send / execute call that is at its
+`_must_be_active()` check is not blocked and ends with StateError in that very step (fails fast) -/
+theorem C20_call_on_dead_executor_fails_fast {s : St} {i : Nat} {c : Caller} {op : Op} {rest : List Op}
+    (hc : s.callers[i]? = some c) (hdead : s.loopAlive = false) (hp : c.prog = op :: rest)
+    (hpc : c.pc = .chk1 ∨ c.pc = .chk2) (hop : op.isClose = false) :
+    stepCaller s i = some { s with callers := updAt s.callers i (fun _ => finish c op .state) } := by
+  rcases c with ⟨prog, pc, job, hist⟩
+  simp only at hp hpc; subst hp
+  rcases hpc with rfl | rfl <;> simp [stepCaller, hc, callerStep, hdead, hop]
+
+/-! ### termination: every transition strictly decreases a measure — in EVERY state, so no run is infinite -/
+
+theorem C20_measure_decreases {s s' : St} {l : Label} (h : step s l = some s') : mu s' < mu s := step_mu h
+
+/-- every run from the initial state of any configuration has at most `mu (init cfg)` transitions -/
+theorem C20_runs_bounded {cfg : Cfg} {ls : List Label} {s : St} (h : exec (init cfg) ls = some s) :
+    ls.length ≤ mu (init cfg) := by
+  have := exec_length_le h; omega
+
+theorem sumMu_init (ps : List (List Op)) : sumMu (ps.map initCaller) = 14 * (ps.map List.length).sum := by
+  induction ps with
+  | nil => rfl
+  | cons p ps ih => simp only [List.map_cons, sumMu, ih, List.sum_cons, callerMu, initCaller, jobRank]; omega
+
+/-- the bound, explicitly: 14 steps per call, 8 for the loop thread, one per peer event -/
+theorem C20_runs_bounded_explicit {cfg : Cfg} {ls : List Label} {s : St} (h : exec (init cfg) ls = some s) :
+    ls.length ≤ 14 * (cfg.progs.map List.length).sum + 8 + cfg.peer.length := by
+  have := C20_runs_bounded h
+  simp only [mu, init, sumMu_init, closeRank] at this
+  simpa using this
+
+/-! ### no hang (partial: outside the excluded region) -/
+
+theorem terminal_iff (s : St) : terminal s = true ↔ ∀ l, step s l = none := by
+  constructor
+  · intro h l
+    simp only [terminal, List.all_eq_true, Option.isNone_iff_eq_none] at h
+    by_cases hm : l ∈ allLabels s
+    · exact h l hm
+    · cases l with
+      | caller i =>
+        have : ¬ i < s.callers.length := by
+          intro hi; apply hm
+          simp only [allLabels, List.mem_append, List.mem_flatMap, List.mem_range]
+          exact Or.inl ⟨i, hi, by simp⟩
+        simp [step, stepCaller, List.getElem?_eq_none (Nat.le_of_not_lt this)]
+      | job i =>
+        have : ¬ i < s.callers.length := by
+          intro hi; apply hm
+          simp only [allLabels, List.mem_append, List.mem_flatMap, List.mem_range]
+          exact Or.inl ⟨i, hi, by simp⟩
+        simp only [step, stepJob, List.getElem?_eq_none (Nat.le_of_not_lt this)]
+        split <;> rfl
+      | close => exact absurd (by simp [allLabels]) hm
+      | stop => exact absurd (by simp [allLabels]) hm
+      | peer => exact absurd (by simp [allLabels]) hm
+  · intro h
+    simp only [terminal, List.all_eq_true, Option.isNone_iff_eq_none]
+    exact fun l _ => h l
+
+/-- **Every maximal run that stays outside the excluded region ends with all callers returned** (or waiting in
+`receive()` for a peer that may still send, on an open session with a live loop): no call blocks for ever.
+`_partial`: the hypothesis `execOk` (instead of `exec`) excludes runs in which a coroutine is submitted after
+`AsyncSession.close` began, or two receives wait at once — exactly where the witnesses below live. -/
+theorem C20_no_hang_partial {cfg : Cfg} {ls : List Label} {s : St} (h : execOk (init cfg) ls = some s)
+    (hmax : ∀ l, step s l = none) :
+    ∀ (i : Nat) (c : Caller), s.callers[i]? = some c → c.finished = true ∨ legitWait s c = true :=
+  terminal_all_returned (invs_execOk h) hmax
+
+/-- … and if a close was ever started (by `close()`, `logout()`, end of session or disconnect) the run ends with the
+executor thread exited, the event set, the session closed and the lock free -/
+theorem C20_thread_exits_partial {cfg : Cfg} {ls : List Label} {s : St} (h : execOk (init cfg) ls = some s)
+    (hmax : ∀ l, step s l = none) (hstarted : s.closePc ≠ .idle) :
+    s.loopAlive = false ∧ s.closedEvent = true ∧ s.sessClosed = true ∧ s.lock = none := by
+  have I := invs_execOk h
+  obtain ⟨hd, ha⟩ := closing_completes I hmax hstarted
+  have r := C20_thread_exit_implies_closed ⟨ls, execOk_exec h⟩ ha
+  refine ⟨ha, r.2.2.1, r.2.2.2.1, ?_⟩
+  cases hl : s.lock with
+  | none => rfl
+  | some t =>
+    cases t with
+    | loop => exact absurd hl r.2.2.2.2
+    | caller k => exact absurd hl (no_holder_when_terminal I hmax k)
+
+/-- with at least one close()/logout() in some program nobody is left waiting for the peer either: all returned.
+(stated for the caller that closes: it has finished, so by `C20_close_returns_thread_exited` the thread is gone) -/
+theorem C20_no_legit_wait_after_close_partial {cfg : Cfg} {ls : List Label} {s : St}
+    (h : execOk (init cfg) ls = some s) (hmax : ∀ l, step s l = none) (hstarted : s.closePc ≠ .idle) :
+    ∀ (i : Nat) (c : Caller), s.callers[i]? = some c → c.finished = true := by
+  intro i c hc
+  rcases C20_no_hang_partial h hmax i c hc with hf | hw
+  · exact hf
+  · have ha := (C20_thread_exits_partial h hmax hstarted).1
+    unfold legitWait at hw
+    split at hw
+    · simp [ha] at hw
+    · simp at hw
+
+/-! ### the excluded region is necessary: the full statement is false of the unchanged code -/
+
+private theorem hangs_spec {cfg : Cfg} {run : List Label} {i : Nat} {j : Job} {alive : Bool}
+    (h : Witness.C20.hangsAt cfg run i j alive = true) :
+    ∃ s c, exec (init cfg) run = some s ∧ (∀ l, step s l = none) ∧ s.callers[i]? = some c ∧
+      c.finished = false ∧ legitWait s c = false := by
+  unfold Witness.C20.hangsAt at h
+  split at h
+  · simp at h
+  · rename_i s hs
+    simp only [Bool.and_eq_true] at h
+    obtain ⟨⟨ht, _⟩, hc⟩ := h
+    split at hc
+    · rename_i c hcc
+      simp only [Bool.and_eq_true, beq_iff_eq, Bool.not_eq_true'] at hc
+      refine ⟨s, c, hs, (terminal_iff s).mp ht, hcc, ?_, hc.2⟩
+      simp [Caller.finished, hc.1.1]
+    · simp at hc
+
+/-- submit after stop (DESIGN §6 #16): a maximal run of the model in which a caller never returns -/
+theorem C20_submit_after_stop_is_a_hang :
+    ∃ s c, exec (init Witness.C20.cfg1) Witness.C20.run1 = some s ∧ (∀ l, step s l = none) ∧
+      s.callers[0]? = some c ∧ c.finished = false ∧ legitWait s c = false :=
+  hangs_spec Witness.C20.C20_witness_submit_after_stop
+
+theorem C20_close_lock_deadlock_is_a_hang :
+    ∃ s c, exec (init Witness.C20.cfg2) Witness.C20.run2 = some s ∧ (∀ l, step s l = none) ∧
+      s.callers[0]? = some c ∧ c.finished = false ∧ legitWait s c = false :=
+  hangs_spec Witness.C20.C20_witness_close_lock_deadlock
+
+theorem C20_concurrent_receive_is_a_hang :
+    ∃ s c, exec (init Witness.C20.cfg3) Witness.C20.run3 = some s ∧ (∀ l, step s l = none) ∧
+      s.callers[0]? = some c ∧ c.finished = false ∧ legitWait s c = false :=
+  hangs_spec Witness.C20.C20_witness_concurrent_receive_lost
+
+theorem C20_full_statement_false :
+    ¬ (∀ (cfg : Cfg) (ls : List Label) (s : St), exec (init cfg) ls = some s → (∀ l, step s l = none) →
+        ∀ (i : Nat) (c : Caller), s.callers[i]? = some c → c.finished = true ∨ legitWait s c = true) := by
+  intro hall
+  obtain ⟨s, c, he, ht, hc, hf, hw⟩ := C20_submit_after_stop_is_a_hang
+  rcases hall _ _ s he ht 0 c hc with h | h
+  · rw [hf] at h; cases h
+  · rw [hw] at h; cases h
+
+/-- `soup.connect`: when it raises, its executor thread has been stopped and joined -/
 theorem C20_connect_raises_thread_exited (ev : LoginEv) : (connect ev).1 = true → (connect ev).2 = false := by
   cases ev <;> decide
+
+/-! ### non-vacuity: concrete runs inside the hypotheses -/
+
+/-- two threads, a blocked receive woken by close(), the closer returns, later calls get StateError: a maximal run
+with every step outside the excluded region -/
+example :
+    let cfg : Cfg := { progs := [[.recv, .send], [.close, .recv]], peer := [.reply] }
+    let run := Witness.C20.rep 3 (.caller 0) ++ [.job 0, .peer, .caller 0] ++   -- T0 receive() gets the message
+      Witness.C20.rep 4 (.caller 0) ++ [.job 0] ++                            -- T0 send_msg() submitted and run
+      Witness.C20.rep 6 (.caller 1) ++ [.job 1] ++ Witness.C20.rep 2 (.caller 1) ++   -- T1 close() up to closed_event.wait()
+      Witness.C20.rep 6 .close ++ [.stop] ++ Witness.C20.rep 2 (.caller 1) ++  -- close procedure, loop stops, T1 returns
+      [.caller 0] ++ Witness.C20.rep 2 (.caller 1)                            -- T0 gets its result, T1 receive() → StateError
+    (execOk (init cfg) run).map (fun s => (terminal s, s.loopAlive, s.callers.map (·.hist))) =
+      some (true, false, [[(.send, .ok), (.recv, .msg)], [(.recv, .state), (.close, .ok)]]) := by decide
+
+/-- a receive blocked when the peer ends the session gets EndOfQueue; the thread exits -/
+example :
+    let cfg : Cfg := { progs := [[.recv]], peer := [.endOfSession] }
+    let run := Witness.C20.rep 3 (.caller 0) ++ [.job 0, .peer] ++ Witness.C20.rep 6 .close ++ [.stop, .caller 0]
+    (execOk (init cfg) run).map (fun s => (terminal s, s.loopAlive, s.callers.map (·.hist))) =
+      some (true, false, [[(.recv, .eoq)]]) := by decide
+
+/-- the witnesses are NOT inside the hypothesis of the partial theorem (they step into the excluded region) -/
+example : execOk (init Witness.C20.cfg1) Witness.C20.run1 = none := by decide
+example : execOk (init Witness.C20.cfg2) Witness.C20.run2 = none := by decide
+example : execOk (init Witness.C20.cfg3) Witness.C20.run3 = none := by decide
 
 end NasdaqModel.Props.C20
